@@ -180,7 +180,7 @@ def body_lines(case):
 
 
 BLOCKS = ["para", "para", "bullet", "ordered", "quote", "hr", "icode", "fence", "fence_lang", "html", "table", "target", "comment", "blockbreak", "mathblock", "deflist", "fieldlist", "footdef", "tasklist",
-          "attrs_para", "div", "directive", "colon_directive", "code_directive", "unknown_directive"]
+          "attrs_para", "div", "directive", "colon_directive", "code_directive", "unknown_directive", "titled_directive", "titled_directive"]
 NOJINJA_BLOCKS = [b for b in BLOCKS if b not in ("attrs_para", "div", "subst_block")]
 NOJINJA_INLINES = ["em", "strong", "code", "url", "auto", "image", "hard", "soft", "math", "strike", "fnref", "html_inline", "entity", "escape", "role", "unknown_role", "anchor", "intlink"]
 
